@@ -269,6 +269,51 @@ Definition hh_check (S : list str) (dT dU : htfc) : bool :=
 Definition hhtfc_check (S : list str) (d : hhtfc) : bool := hh_check S (hh_ht d) (hh_hu d).
 
 (* ---------------------------------------------------------------------- *)
+(* second checker: the decodeString protocol is NOT run, only the chunk chain *)
+(* ---------------------------------------------------------------------- *)
+(* as HTFCDefs.htfc_check2: headers as in [hh_check]; along the internal strings only the bit machine (processChunk +
+   lookup in tableHU) is run and the SYMBOLS the Huffman table hands out are compared with the front-coded items
+   VByte(lcp) ++ suffix ++ NUL computed from S (in-bucket lcp < 128); HHTFCProofs.hhtfc_check2_sound proves (through
+   HTFCProofs.decode_string_item on the Huffman view) that StatCoder::decodeString then reassembles the strings of S *)
+Fixpoint hhchain_from (dT dU : htfc) (b : N) (i : N) (prev : str) (bs : bst) (A : list N) (ss : list str) : bool :=
+  match ss with
+  | [] => true
+  | s :: r =>
+      (lenN s <? h_maxlength dT) && forallb (fun c => negb (c =? 0)) s &&
+      if i mod b =? 0 then
+        let k := i / b + 1 in
+        match rdN (h_bl dT) k, pack_string (h_cw dT) (s ++ [0]), decode_header dT k with
+        | Some off, Some (enc, _), Some st0 =>
+            match reset_scan dT k st0 with
+            | Some st1 =>
+                (off <=? lenN (h_text dT)) && hprefix_eqb enc (skipN off (h_text dT)) && ast_is (snd st0) s &&
+                hhchain_from dT dU b (i + 1) s (fst st1) [] r
+            | None => false
+            end
+        | _, _, _ => false
+        end
+      else
+        let l := lcp prev s in
+        let item := (l + 128) :: skipN l s ++ [0] in
+        (l <? 128) && (l <? lenN s) &&
+        match item_walk (S (length item)) dU bs A (lenN item) with
+        | Some (bs', Afull) =>
+            hprefix_eqb item Afull && (lenN prev + 1 + lenN Afull <? str_cap dT) &&
+            hhchain_from dT dU b (i + 1) s bs' (skipN (lenN item) Afull) r
+        | None => false
+        end
+  end.
+
+Definition hh_check2 (S : list str) (dT dU : htfc) : bool :=
+  let b := h_bsize dT in
+  (2 <=? b) && (b <? 2 ^ 32) && (h_elements dT =? lenN S) && (lenN S <? 2 ^ 32) &&
+  (h_buckets dT =? (lenN S + b - 1) / b) && (h_k dT =? 16) && (h_maxlength dT <? 2 ^ 29) &&
+  code_chk (h_cw dT) && forallb (fun x => x <? 256) (h_text dT) &&
+  hhchain_from dT dU b 0 [] (fst st0_dummy) [] S.
+
+Definition hhtfc_check2 (S : list str) (d : hhtfc) : bool := hh_check2 S (hh_ht d) (hh_hu d).
+
+(* ---------------------------------------------------------------------- *)
 (* the layout the constructor defines (executable specification, no theorem depends on it) *)
 (* ---------------------------------------------------------------------- *)
 (* textStrings / blStrings as StringDictionaryHHTFC(it, bucketsize) writes them: every bucket = coderHT->encodeSymbol
